@@ -784,7 +784,7 @@ def spec_tie(ctx, cases):
 MANIFEST = {
     "category": "proof",
     "technique": "Coq proof per operator (implementation model vs TLA+/TLC spec over all representation values, any depth, well- or ill-typed) + differential correspondence of the model with distsys/tla + independent Python reference oracle",
-    "text": ("64 theorems in coq/Properties/C03.v, closed under the global context, of the shape allowed R (spec_op (norm args)) (ModuleOp args): proved outright for "
+    "text": ("66 theorems in coq/Properties/C03.v, closed under the global context, of the shape allowed R (spec_op (norm args)) (ModuleOp args): proved outright for "
              "+ - * ^ \\div % unary- .. <= < >= >, ~ <=> /\\ \\/ => IF Assert, \\in \\notin \\cap \\cup \\ \\subseteq IsFiniteSet Cardinality SUBSET UNION MakeSet \\X, "
              "Head Tail Append SubSeq MakeTuple, :> @@ DOMAIN application MakeRecord record sets [S -> T] [x \\in S |-> e] EXCEPT (nested paths), \\A \\E set refinement/comprehension CHOOSE, "
              "ToString, SelectElement; partial with refutation witnesses for = # (incomparable kinds; tuple vs 1..n-function), Len and \\o on strings, Seq, SelectSeq (known findings). "
